@@ -284,3 +284,151 @@ def field_updates(fn, field, of=None, base_local=None):
                     other = rv.ops[0]
             out.append({"block": b.idx, "idx": i, "stmt": s, "kind": kind, "other": other, "ln": s.ln})
     return out
+
+
+# ---- "X == Variant" atoms ------------------------------------------------------------------------------------
+
+EQ_CALL = re.compile(r"^(std|core)::cmp::PartialEq::(eq|ne)$")
+
+
+def slice_variants(fn, sl):
+    """(adt, variant) constants a provenance slice bottoms out in: promoted constants and field-less aggregates"""
+    out = set()
+    for c in sl.consts:
+        if "promoted" in c:
+            op = Operand({"k": c})
+            for av in fn.promoted_variants(op):
+                out.add(av)
+    for _, s in sl.aggs:
+        if s.rv.j.get("ak") == "adt" and not s.rv.j["fields"]:
+            out.add((s.rv.j["adt"], s.rv.j["variant"]))
+    return out
+
+
+class Atom:
+    """a branch that tests `subject == adt::variant`: eq_edges / ne_edges are CFG edges (from, to) on which the
+    equality is known to hold / not to hold"""
+
+    def __init__(self, fn, sw, subject, eq_edges, ne_edges, ln):
+        self.fn, self.sw, self.subject, self.eq_edges, self.ne_edges, self.ln = fn, sw, subject, eq_edges, ne_edges, ln
+
+
+def variant_atoms(fn, adt, variant, subject_pred=None):
+    """all tests of `<something> == adt::variant` in fn, in match form or PartialEq form.
+    subject_pred(fn, Slice) filters on the provenance slice of the tested value."""
+    key = ("atoms", adt, variant)
+    out = []
+    # 1. match on the discriminant
+    for (b, pl, tm, other) in discr_switches(fn):
+        t = fn.local_ty(pl.local) if pl.is_local() else None
+        sl = backslice(fn, pl, "prov")
+        names = set(tm)
+        if variant not in names:
+            continue
+        # make sure it is the right enum: the scrutinee type (through refs) mentions the adt
+        tys = {fn.local_ty(l) for l in sl.locals}
+        if not any(adt in x for x in tys):
+            continue
+        if subject_pred is not None and not subject_pred(fn, sl):
+            continue
+        eq_edges = [(b.idx, tm[variant])]
+        ne_edges = [(b.idx, t2) for n, t2 in tm.items() if n != variant and t2 != tm[variant]]
+        out.append(Atom(fn, b.idx, sl, eq_edges, ne_edges, b.term.ln))
+    # 2. PartialEq::eq / ne against a constant variant
+    for cb in fn.calls(lambda t: t.callee is not None and EQ_CALL.search(t.callee) is not None):
+        t = cb.term
+        s0 = backslice(fn, t.args[0], "prov")
+        s1 = backslice(fn, t.args[1], "prov")
+        v0, v1 = slice_variants(fn, s0), slice_variants(fn, s1)
+        if (adt, variant) in v1:
+            subj = s0
+        elif (adt, variant) in v0:
+            subj = s1
+        else:
+            continue
+        if subject_pred is not None and not subject_pred(fn, subj):
+            continue
+        is_ne = t.callee.endswith("::ne")
+        for sw in _bool_switches_on(fn, cb.idx):
+            (swb, negated) = sw
+            tt, ft = bool_switch_targets(swb)
+            truth_is_eq = (not is_ne) ^ negated
+            eq_t, ne_t = (tt, ft) if truth_is_eq else (ft, tt)
+            out.append(Atom(fn, swb.idx, subj, [(swb.idx, eq_t)], [(swb.idx, ne_t)], t.ln))
+    return out
+
+
+def bool_switch_on_place(fn):
+    """switches directly on a projected place (e.g. `switch _6.0` of a tuple): list of (switch Block, Slice of the place)"""
+    out = []
+    for b in fn.blocks:
+        if b.cleanup or b.term.k != "switch":
+            continue
+        d = b.term.discr
+        if d.place is not None and not d.place.is_local():
+            out.append((b, backslice(fn, d, "prov")))
+    return out
+
+
+def _bool_switches_on(fn, call_block):
+    """switches whose discriminant is the (possibly negated) bool returned by the call ending call_block"""
+    out = []
+    dest = fn.blocks[call_block].term.dest
+    defs = fn.defs()
+    for b in fn.blocks:
+        if b.cleanup or b.term.k != "switch":
+            continue
+        d = b.term.discr
+        if d.place is None or not d.place.is_local():
+            continue
+        l, neg, seen = d.place.local, False, set()
+        while l not in seen:
+            seen.add(l)
+            if l == dest.local and dest.is_local():
+                # must be this call's definition (dest locals are single-assignment temporaries)
+                out.append((b, neg))
+                break
+            ds = [x for x in defs.get(l, []) if x[2] == "assign" and not fn.blocks[x[0]].cleanup]
+            if len(ds) != 1:
+                break
+            rv = ds[0][3].rv
+            if rv.k == "un" and rv.op == "Not" and rv.ops[0].place is not None and rv.ops[0].place.is_local():
+                neg = not neg
+                l = rv.ops[0].place.local
+            elif rv.k == "use" and rv.ops[0].place is not None and rv.ops[0].place.is_local():
+                l = rv.ops[0].place.local
+            else:
+                break
+    return out
+
+
+def guarded_by_ne(fn, atoms, block):
+    """every path from entry to `block` crosses an edge on which `subject != variant` holds"""
+    ne = [e for a in atoms for e in a.ne_edges]
+    if not ne:
+        return False
+    return block not in fn.reachable([0], avoid_edges=ne)
+
+
+def guarded_by_eq(fn, atoms, block):
+    """every path from entry to `block` crosses an edge on which `subject == variant` holds"""
+    eq = [e for a in atoms for e in a.eq_edges]
+    if not eq:
+        return False
+    return block not in fn.reachable([0], avoid_edges=eq)
+
+
+def bool_call_guards(fn, call_pat, block, want=True, recv_pred=None):
+    """every path from entry to `block` crosses the `want` edge of a switch on the bool returned by a call matching call_pat"""
+    edges = []
+    for cb in fn.calls_to(call_pat):
+        if recv_pred is not None and not recv_pred(fn, cb.term):
+            continue
+        for (swb, neg) in _bool_switches_on(fn, cb.idx):
+            tt, ft = bool_switch_targets(swb)
+            if neg:
+                tt, ft = ft, tt
+            edges.append((swb.idx, tt if want else ft))
+    if not edges:
+        return False
+    return block not in fn.reachable([0], avoid_edges=edges)
